@@ -267,3 +267,25 @@ func Harness_C12_stream_ids_must_increase() {
 	}
 	verifReach("end")
 }
+
+// one tracker instance serving several calls: a dry run first (rolled back), then a real write; a later import must be
+// rejected like after any accepted write
+func Harness_C12_dry_run_then_write_then_import() {
+	dst := ledgercontroller.VerifNewDB("target", 8)
+	ctrl := c12Open(dst)
+	req := ledgercontroller.VerifCreate(ledgercontroller.VerifPosting("world", "first", "USD/2", "7"))
+	req.DryRun = true
+	_, _, _, err := ctrl.CreateTransaction(c12bg, req)
+	verifAssert("C12:dry-run-on-a-fresh-ledger-succeeds", err == nil)
+	verifAssert("C12:a-dry-run-leaves-the-ledger-initializing", dst.VerifState() == ledger.StateInitializing && dst.VerifLogCount() == 0)
+	req.DryRun = false
+	_, _, _, err = ctrl.CreateTransaction(c12bg, req)
+	verifAssert("C12:first-write-on-a-fresh-ledger-succeeds", err == nil)
+	verifAssert("C12:an-accepted-write-moves-the-ledger-out-of-initializing", dst.VerifState() == ledger.StateInUse)
+	before := dst.VerifClone()
+	_, maxLog := dst.VerifMaxIDs()
+	err = c12Import(dst, c12Foreign(maxLog))
+	verifAssert("C12:import-after-an-accepted-write-is-rejected", err != nil && errors.Is(err, ledgercontroller.ErrImport{}))
+	verifAssert("C12:rejected-import-has-no-effect", ledgercontroller.VerifStateDiff(before, dst, true) == "")
+	verifReach("end")
+}
